@@ -4,12 +4,12 @@
 # library builds, the repository's tests pass and the demo fails. Copies the deliverables to /verif/seeded/<name>/.
 ID=$1; NAME=${2:-$ID}; SRC=${3:-/tmp/wt-$ID}; W=/tmp/sv-$ID-$$; OUT=/verif/seeded/$NAME
 [ -f $SRC/patch.diff ] || { echo "no patch in $SRC"; exit 2; }
-mkdir -p $OUT; cp $SRC/patch.diff $OUT/; for f in demo.c demo.sh NOTES.md; do [ -f $SRC/$f ] && cp $SRC/$f $OUT/; done
+mkdir -p $OUT; cp $SRC/patch.diff $OUT/; for f in demo.c demo.sh NOTES.md; do [ -f $SRC/$f ] && cp $SRC/$f $OUT/; done; [ -d $SRC/demo_files ] && cp -r $SRC/demo_files $OUT/
 # keep only library/tool changes in the patch
 git -C /repo worktree add -q --detach $W HEAD || exit 2
 cleanup() { git -C /repo worktree remove --force $W 2>/dev/null; rm -rf $W; }
 trap cleanup EXIT
-cd $W; for f in demo.c demo.sh; do [ -f $OUT/$f ] && cp $OUT/$f .; done; chmod +x demo.sh 2>/dev/null
+cd $W; for f in demo.c demo.sh; do [ -f $OUT/$f ] && cp $OUT/$f .; done; [ -d $OUT/demo_files ] && cp -r $OUT/demo_files .; chmod +x demo.sh 2>/dev/null
 build() { rm -rf _build; cmake -G Ninja -S . -B _build -DCMAKE_C_FLAGS=-Wno-error -DWITH_GNUTLS=ON -DWITH_TESTS=ON >/dev/null 2>&1 && cmake --build _build >/dev/null 2>&1; }
 rundemo() { if [ -f demo.sh ]; then timeout 900 ./demo.sh >demo.out 2>&1; else cc -I include -I _build -DJWT_STATIC_DEFINE demo.c _build/libjwt.a -ljansson -lgnutls -lssl -lcrypto -lpthread -o demo.bin >demo.out 2>&1 && timeout 900 ./demo.bin >>demo.out 2>&1; fi; echo $?; }
 build || { echo "BASE BUILD FAILED"; exit 3; }
